@@ -159,16 +159,17 @@ Definition sos_data (comps pred : Z) : list Z :=
 
 (* ---------- Encode (jpeg/lossless) ---------- *)
 Definition params_ok (w h comps P : Z) (pixels : list Z) : bool :=
-  (0 <? w) && (0 <? h) && ((comps =? 1) || (comps =? 3)) && (2 <=? P) && (P <=? 16)
+  (0 <? w) && (0 <? h) && (w <=? 65535) && (h <=? 65535)
+  && ((comps =? 1) || (comps =? 3)) && (2 <=? P) && (P <=? 16)
   && (w * h * comps * ((P + 7) / 8) <=? zlen pixels).
 
 (* everything after the samples and the difference sequence are known *)
 Definition encode_stream (w h comps P pred : Z) (diffs : list Z) : outcome (list Z) :=
   obind (build_optimal_table (count_freqs diffs)) (fun t =>
-    let codes := build_codes (ht_bits t) (ht_vals t) in
+    let codes := build_codes (fst t) (snd t) in
     Ok (be16 M_SOI ++ segment M_APP0 jfif_payload
         ++ segment M_SOF3 (sof3_data w h comps P)
-        ++ segment M_DHT (dht_data 0 (ht_bits t) (ht_vals t))
+        ++ segment M_DHT (dht_data 0 (fst t) (snd t))
         ++ segment M_SOS (sos_data comps pred)
         ++ enc_syms codes w_init diffs
         ++ be16 M_EOI)).
@@ -222,6 +223,12 @@ Definition read_segment (l : list Z) : outcome (list Z * list Z) :=
   end.
 Definition is_rst (m : Z) : bool := (65488 <=? m) && (m <=? 65495).   (* FFD0..FFD7 *)
 Definition has_length (m : Z) : bool := negb ((m =? M_SOI) || (m =? M_EOI) || is_rst m).
+(* standard.IsSOF: FFC0-C3, C5-C7, C9-CB, CD-CF *)
+Definition is_sof (m : Z) : bool :=
+  ((65472 <=? m) && (m <=? 65475)) || ((65477 <=? m) && (m <=? 65479))
+  || ((65481 <=? m) && (m <=? 65483)) || ((65485 <=? m) && (m <=? 65487)).
+(* default branch of the marker loops: a frame header of another process (or FFF7, JPEG-LS) *)
+Definition foreign_frame (m : Z) : bool := is_sof m || (m =? 65527).
 
 (* ---------- sample reconstruction, shared by both decoders ---------- *)
 (* jpeg/lossless: sample := (predicted + diff) & 0xFFFF  (modulo 2^16, T.81 H.1.2.1).
@@ -303,6 +310,7 @@ Definition d_init : dstate := mkD 0 0 0 0 0 [None; None; None; None] [0; 0; 0].
 
 Definition ll_parse_sof3 (data : list Z) (st : dstate) : outcome dstate :=
   if zlen data <? 6 then Err
+  else if negb (d_w st =? 0) || negb (d_h st =? 0) then Err     (* a second frame header *)
   else
     let P := znth data 0 0 in
     if (P <? 2) || (16 <? P) then Err
@@ -400,6 +408,7 @@ Fixpoint ll_loop (fuel : nat) (l : list Z) (st : dstate) : outcome dec_result :=
         obind (read_segment l1) (fun dl =>
         obind (ll_parse_sos (fst dl) st) (fun st' => ll_decode_scan st' (snd dl)))
       else if m =? M_EOI then Err
+      else if foreign_frame m then Err
       else if has_length m then
         obind (read_segment l1) (fun dl => ll_loop f (snd dl) st)
       else ll_loop f l1 st)
@@ -426,6 +435,7 @@ Fixpoint sv1_sof_comps (k : nat) (i : Z) (data : list Z) : outcome (list (Z * Z)
   end.
 Definition sv1_parse_sof3 (data : list Z) (st : sstate) : outcome sstate :=
   if zlen data <? 6 then Err
+  else if negb (s_w st =? 0) || negb (s_h st =? 0) then Err     (* a second frame header *)
   else
     let P := znth data 0 0 in
     if (P <? 2) || (16 <? P) then Err
@@ -551,6 +561,7 @@ Fixpoint sv1_loop (fuel : nat) (l : list Z) (st : sstate) : outcome dec_result :
         obind (read_segment l1) (fun dl =>
         obind (sv1_parse_sos (fst dl) st) (fun st' => sv1_decode_scan st' (snd dl)))
       else if m =? M_EOI then Ok (sv1_pixels st (sv1_zero_rows st))
+      else if foreign_frame m then Err
       else if has_length m then
         obind (read_segment l1) (fun dl => sv1_loop f (snd dl) st)
       else sv1_loop f l1 st)
